@@ -37,6 +37,15 @@ LegacyTrailingSlash(doc, req, obs) ==
    /\ ~BindsEmpty(TemplOf(doc, obs.path), obs.params)
    /\ Failed(doc, Stripped(req), obs) = {}
 
+(* F-C09-2 seen from the root template: the pattern tree strips the trailing "/" of the template "/" as well, *)
+(* so under a server with base path /b the root operation answers "/b", "/b//", ... (any number of trailing   *)
+(* slashes other than the one the template has).  The answer is the correct one for "/b/".                     *)
+RootSlashed(req) == [req EXCEPT !.u.path = StripSlashes(req.u.path) \o <<"">>]
+LegacyRootTrailingSlash(doc, req, obs) ==
+   /\ obs.k = "route" /\ obs.path = "/" /\ obs.params = <<>>
+   /\ req.u.path # RootSlashed(req).u.path
+   /\ Failed(doc, RootSlashed(req), obs) = {}
+
 (* F-C09-3: legacy FindRoute calls PathItem.GetOperation(method) when the tree has no    *)
 (* match but the path is literally a key of paths; GetOperation panics for a method      *)
 (* outside the nine it knows.                                                            *)
@@ -101,7 +110,8 @@ LegacyClass(doc, req, obs) ==
    ELSE IF LegacyFragment(doc, req, obs) THEN "legacy_fragment_glued_to_path"
    ELSE IF LegacyDecoded(doc, req, obs) THEN "legacy_noserver_decoded_path"
    ELSE IF obs.k = "route" /\ HasTempl(doc, obs.path) /\ LegacyEmptyBinding(doc, req, obs) THEN "legacy_empty_binding"
-   ELSE IF obs.k = "route" /\ HasTempl(doc, obs.path) /\ LegacyTrailingSlash(doc, req, obs) THEN "legacy_trailing_slash"
+   ELSE IF obs.k = "route" /\ HasTempl(doc, obs.path) /\ obs.path # "/" /\ LegacyTrailingSlash(doc, req, obs) THEN "legacy_trailing_slash"
+   ELSE IF obs.k = "route" /\ HasTempl(doc, obs.path) /\ LegacyRootTrailingSlash(doc, req, obs) THEN "legacy_trailing_slash"
    ELSE "none"
 
 Class(doc, req, router, obs, failed) ==
